@@ -2,6 +2,7 @@
 
 from __future__ import annotations
 
+import contextlib
 import copy
 import gc
 import json
@@ -291,6 +292,44 @@ def root_history_attempts(run: Run, stream, only=None):
             run.violation(stream, case, {"why": "the document and its root no longer refer to each other"})
 
 
+def document_from_attached(run: Run, stream):
+    import trees
+
+    """a node that has a parent cannot become the root of a (new) document without being detached or cloned - also not
+    through the Document constructor, which passes a node of a document-less tree through as it is (seeded C09-8)"""
+    from delb import Document, altered_default_filters, new_tag_node, tag
+
+    shapes = [lambda: new_tag_node("p", children=[tag("c"), "t"]),
+              lambda: new_tag_node("p", children=["a", tag("c", {"k": "v"}, ["x"]), tag("d")]),
+              lambda: new_tag_node("p", children=[tag("q", [tag("c")])])]
+    for i, make in enumerate(shapes):
+        for amb in ("none", "default"):
+            parent = make()
+            with altered_default_filters():
+                keep = [parent] + list(parent.iterate_descendants())  # noqa: F841
+                child = next(n for n in parent.iterate_descendants() if getattr(n, "local_name", "") == "c")
+                holder = child.parent
+            case = {"sub": ["document-from-attached", i], "attempt": {"why": "attached", "op": "Document(node)", "ambient": amb}}
+            before = trees.extract(parent)
+            raised = None
+            try:
+                with (contextlib.nullcontext() if amb == "default" else altered_default_filters()):
+                    doc = Document(child)
+            except Exception as e:  # noqa: BLE001
+                raised, doc = type(e).__name__, None
+            run.case(stream, case, True)
+            run.count("attempt", "document-from-attached:" + (raised or "accepted"))
+            after = trees.extract(parent)
+            if doc is not None and doc.root is child:
+                run.violation(stream, case, {"why": "a node that has a parent was made the root of a document without being detached or cloned",
+                                             "parent_tree": after})
+            elif doc is not None and (child.parent is not holder or after != before):
+                run.violation(stream, case, {"why": "Document(node) changed the tree the node lives in", "before": before, "after": after})
+            if raised is not None and (after != before or child.parent is not holder or child.document is not None):
+                run.violation(stream, case, {"why": f"Document(attached node) was rejected with {raised} but changed something",
+                                             "before": before, "after": after})
+
+
 def guard_request(mirror: E.Mirror, a):
     c = dict(a)
     if c["op"] in ("new_comment", "comment_content"):
@@ -386,6 +425,7 @@ def check(run: Run, lean: dict) -> int:
     for _ in range(max(4, n // 10)):
         sibling_attached_attempts(run, "siblings")
         root_history_attempts(run, "root-history")
+    document_from_attached(run, "document-from-attached")
     if ok and rows:
         for (case, req, raised, known), m in zip(rows, run_driver([r[1] for r in rows])):
             if "driver_error" in m:
